@@ -869,7 +869,9 @@ class TrueTypeFont:
                         Tuple[int, int, int],
                         struct.unpack(">LLL", fp.read(12)),
                     )
-                    for c in range(sc, min(ec, 0x10FFFF) + 1):
+                    # glyph ids are 16 bit, which also bounds the work per group
+                    ec = min(ec, 0x10FFFF, sc + 0xFFFF - gid)
+                    for c in range(sc, ec + 1):
                         char2gid[c] = gid + c - sc
             else:
                 # Other subtable formats are not supported; use the rest.
